@@ -4799,6 +4799,13 @@ class ParseCtx:
     def _parse_macro_call(self, lark_node_for_error: lark.Tree, macro: Macro, arguments: List[lark.Tree]):
         if len(arguments) != len(macro.arguments):
             raise IllegalParseTree("Incorrect number of arguments", lark_node_for_error)
+        depth = 0
+        instance = self.active_macro
+        while instance is not None:
+            depth += 1
+            instance = instance.parent
+        if depth >= 64:
+            raise IllegalParseTree("Macro expansion is nested too deeply (macros cannot recurse)", lark_node_for_error)
         self.bound_argument_stack.append(
             macro.bind_arguments_for(arguments, self)
         )
